@@ -26,7 +26,7 @@ sys.path.insert(0, os.path.join(C.ROOT, "tools"))
 import translate_loads  # noqa: E402
 from cxx2lean import Refuse  # noqa: E402
 
-TYPES = list(K11.SIMPLE)
+TYPES = list(K11.SIMPLE) + ["imep", "team", "pop", "summ"]
 # objects per type, max stream length for exhaustive prefixes, token mutations per object: (quick, thorough)
 BUDGET = {
     "hash": ((30, 400, 40), (300, 4000, 400)),
@@ -36,6 +36,10 @@ BUDGET = {
     "mati": ((30, 300, 60), (300, 3000, 400)),
     "matu": ((30, 300, 60), (300, 3000, 400)),
     "dist": ((30, 400, 80), (300, 3000, 400)),
+    "imep": ((40, 300, 80), (400, 3000, 600)),
+    "team": ((12, 300, 80), (100, 3000, 600)),
+    "pop": ((12, 300, 100), (100, 3000, 800)),
+    "summ": ((25, 300, 80), (250, 3000, 600)),
 }
 FAILISH = ("fail", "exc:bad_alloc", "exc:length_error")
 
@@ -129,6 +133,7 @@ def run(chk, replay=None):
 
     # ---- requests ------------------------------------------------------------------------
     reqs = []      # (type, kind, tseed, hex, source)
+    ctx = {}       # type -> symbol-table context for the model
     if replay:
         r = json.load(open(replay))["replay"]
         t = r["line"].split()
@@ -148,10 +153,15 @@ def run(chk, replay=None):
                     continue      # only *valid* serializations are damaged (C11 reports the others)
                 data = bytes.fromhex(o["hex"])
                 chk.count("source_objects:" + typ)
+                ctx[typ] = o.get("ctx", "")
                 reqs.append((typ, "intact", rng.next() % 1000003, o["hex"], i))
                 for kind, b in mutations(rng, data, max_exh, n_tok):
                     reqs.append((typ, kind, rng.next() % 1000003, hexs(b), i))
 
+    symtab = {}
+    if any(t in K11.NEEDS_CTX and t not in ctx for t, _, _, _, _ in reqs):     # replay / corpus lines
+        _, o1, _ = K11.gen_objects(ser, 1, 1, "imep")
+        symtab = {t: (o1[0]["ctx"] if o1 else "") for t in K11.NEEDS_CTX}
     lines = [f"ld {t} {ts} {hx}" for t, _, ts, hx, _ in reqs]
     shards = max(1, min(8, len(lines) // 4000))
 
@@ -160,7 +170,7 @@ def run(chk, replay=None):
         return C.run_lines(exe, sub, timeout=3000)
 
     def model(idx):
-        sub = [f"load {t} {hx}" for t, _, _, hx, _ in reqs[idx::shards]]
+        sub = [f"load {t} {hx} {ctx.get(t) or symtab.get(t, '')}" for t, _, _, hx, _ in reqs[idx::shards]]
         return C.run_driver("c12_driver", sub) if drv_ok else None
 
     with cf.ThreadPoolExecutor(2 * shards) as ex:
@@ -206,6 +216,10 @@ def run(chk, replay=None):
             chk.violation(f"{typ}::load let an exception escape ({verdict}) on a damaged stream ({kind})",
                           dict(rep, cpp=ca[:600]), tags=dict(tags, outcome=verdict))
         ma = mod_ans[g]
+        if verdict in ("exc:bad_alloc", "exc:length_error"):
+            # a damaged element count made the real code ask for more memory than the harness grants
+            # (64 MiB): a resource outcome the model has no notion of; only the own oracle applies
+            ma = None
         if ma is not None:
             m_ok = ma.startswith("ok ")
             c_ok = verdict == "ok"
@@ -215,7 +229,7 @@ def run(chk, replay=None):
             if not agree:
                 ndis += 1
                 chk.count("disagree:" + typ)
-                if ndis <= 3:
+                if ndis <= 6:
                     broken.append(f"model and code disagree on `{lines[g][:300]}` ({kind}): code `{ca[:200]}`, "
                                   f"model `{ma[:200]}`")
         if g % 5003 == 0:
